@@ -66,6 +66,12 @@ func AcceptOrdinalSaleListing2Dummies(ctx context.Context, vla *ValidateListingA
 	if err != nil {
 		return nil, err
 	}
+	// Change silently adds nothing when the inputs do not even cover the fee
+	if enough, err := tx.EstimateIsFeePaidEnough(asoa.FQ); err != nil {
+		return nil, err
+	} else if !enough {
+		return nil, bt.ErrInsufficientFees
+	}
 
 	//nolint:dupl // TODO: are 2 dummies useful or to be removed?
 	for i, u := range asoa.UTXOs {
@@ -177,6 +183,12 @@ func MakeBidToBuy1SatOrdinal2Dummies(ctx context.Context, mba *MakeBid2DArgs) (*
 	err = tx.Change(mba.ChangeScript, mba.FQ)
 	if err != nil {
 		return nil, err
+	}
+	// Change silently adds nothing when the inputs do not even cover the fee
+	if enough, err := tx.EstimateIsFeePaidEnough(mba.FQ); err != nil {
+		return nil, err
+	} else if !enough {
+		return nil, bt.ErrInsufficientFees
 	}
 
 	//nolint: dupl // TODO: are 2 dummies useful or to be removed?
